@@ -26,7 +26,7 @@ type rtspOrigin struct {
 }
 
 func newRtspOrigin() (*rtspOrigin, error) {
-	ln, err := net.Listen("tcp", "127.0.0.1:0")
+	ln, err := net.Listen("tcp", privateLoopback()+":0")
 	if err != nil {
 		return nil, err
 	}
